@@ -17,6 +17,8 @@ SIM = os.path.join(ROOT, "sim")
 BUILD = os.path.join(ROOT, ".build")
 REPLAYS = os.path.join(ROOT, "replays")
 EVID = os.path.join(ROOT, "evidence")
+if os.environ.get("VERIF_REPO"):
+    EVID = os.path.join(ROOT, ".build", "evidence-scratch")  # sensitivity runs never touch the committed evidence
 GO = "go1.26.8"
 
 def goenv():
@@ -41,7 +43,18 @@ def build(outdir):
     binp = os.path.join(outdir, "sim.test")
     t0 = time.time()
     # go.sum must cover the repo's dependencies; it is a copy of /repo/go.sum plus the harness extras
-    p = subprocess.run([GO, "test", "-c", "-tags", "verif", "-o", binp, "."], cwd=SIM, env=goenv(),
+    cmd = [GO, "test", "-c", "-tags", "verif", "-o", binp]
+    alt = os.environ.get("VERIF_REPO")
+    if alt:
+        # sensitivity runs only: build against a scratch worktree of gostatsd instead of /repo
+        # (registered commands never set this; they always build /repo's current working tree)
+        mod = open(os.path.join(SIM, "go.mod")).read().replace("=> /repo", "=> " + os.path.abspath(alt))
+        with open(os.path.join(outdir, "go.mod"), "w") as f:
+            f.write(mod)
+        shutil.copy(os.path.join(SIM, "go.sum"), os.path.join(outdir, "go.sum"))
+        cmd += ["-modfile", os.path.join(outdir, "go.mod")]
+        log("building against VERIF_REPO=%s" % alt)
+    p = subprocess.run(cmd + ["."], cwd=SIM, env=goenv(),
                        stdout=subprocess.PIPE, stderr=subprocess.STDOUT, text=True)
     if p.returncode != 0 or not os.path.exists(binp):
         log("BUILD FAILED (exit 2):")
